@@ -294,6 +294,19 @@ fn new_full_env(sink: &Sink) -> Rc<RefCell<Env>> {
     Rc::new(RefCell::new(env))
 }
 
+fn copy_globals(p: &Rc<RefCell<Env>>) -> Rc<RefCell<Env>> {
+    let src = p.borrow();
+    let mut vars = HashMap::with_capacity(src.vars.len());
+    for (k, (ty, cell)) in src.vars.iter() {
+        vars.insert(k.clone(), (ty.clone(), Box::new(RefCell::new(cell.borrow().clone()))));
+    }
+    let parent = match &src.parent {
+        Ok(e) => Ok(Rc::clone(e)),
+        Err(t) => Err(Rc::clone(t)),
+    };
+    Rc::new(RefCell::new(Env { vars, parent, internal_stack: Vec::new(), allow_redeclaration: false }))
+}
+
 enum Outcome {
     Ok(Obj),
     Throw(Obj),
@@ -411,7 +424,9 @@ impl Server {
                 Some(e) => e.clone(),
                 None => Env::with_parent(&self.pristine),
             },
-            _ => Env::with_parent(&self.pristine),
+            // default: a child scope of a private copy of the globals, so that a program that
+            // assigns to a builtin (`swap +, *`) cannot leak into later requests
+            _ => Env::with_parent(&copy_globals(&self.pristine)),
         };
         self.current = Some(base.clone());
         self.take_output();
